@@ -8,13 +8,16 @@ import PdfModel.Model.Concurrent
      cfg tol size root objs   as in `c12.run`; the file is opened sequentially (catalog loaded) before the threads start
      threads   `/`-separated, per thread the `;`-separated calls of `c12.run` (`-` = none)
      schedule  `.`-separated thread numbers (`-` = empty)
-  → `<trace>|<results>|<final>`
+  → `<trace>|<results>|<final>|<enabled>`
      trace     `.`-separated, per scheduled step where the thread stands afterwards:
                `t` between calls | `e<r>` entry of get | `p<r>` guard pushed | `w<r>` waiting for the slot
                | `s<r>` before the store | `o<r>` before the pop | `d` finished | `x` panicked
                | `!` the step was not enabled (replay stops)
      results   `/`-separated per thread, the `;`-separated answers of its completed calls
      final     `done` | `running` | `deadlock` | `panic`
+     enabled   `.`-separated, per scheduled step the threads that were enabled before it (thread numbers
+               concatenated): compared with what the baton scheduler saw, so that a step the model allows and
+               the code does not (or the other way round) shows up
 -/
 
 namespace DrvC13
@@ -32,15 +35,21 @@ def status (t : Thread Val String) : String :=
   | .done, _ => "d"
   | .panicked, _ => "x"
 
-def replay (doc : Doc Val String) (cfg : Conc.Cfg) : State Val String → List Nat → List String → List String × State Val String
-  | s, [], acc => (acc.reverse, s)
-  | s, i :: is, acc =>
+/-- the threads that can take a step, as a string of thread numbers -/
+def enabledSet (doc : Doc Val String) (cfg : Conc.Cfg) (s : State Val String) : String :=
+  String.join (((List.range s.threads.length).filter fun i => s.enabled doc cfg i).map toString)
+
+/-- per step: where the thread stands afterwards, and which threads were enabled before the step -/
+def replay (doc : Doc Val String) (cfg : Conc.Cfg) : State Val String → List Nat → List String → List String →
+    List String × List String × State Val String
+  | s, [], acc, en => (acc.reverse, en.reverse, s)
+  | s, i :: is, acc, en =>
     match step doc cfg s i with
-    | none => (("!" :: acc).reverse, s)
+    | none => (("!" :: acc).reverse, (enabledSet doc cfg s :: en).reverse, s)
     | some s' =>
       match s'.threads[i]? with
-      | some t => replay doc cfg s' is (status t :: acc)
-      | none => (("?" :: acc).reverse, s')
+      | some t => replay doc cfg s' is (status t :: acc) (enabledSet doc cfg s :: en)
+      | none => (("?" :: acc).reverse, en.reverse, s')
 
 def slotOf : Entry Val String → Slot Val String
   | .val T v => .computed T (.ok v)
@@ -60,15 +69,15 @@ def finalOf (doc : Doc Val String) (cfg : Conc.Cfg) (s : State Val String) : Str
 
 def runAll (d : Desc) (guard : Bool) (ccfg : Cache.Cfg) (rootId : Nat) (threads : List (List CallK)) (sched : List Nat) : String :=
   let doc := toDoc d
-  let o := call doc ccfg (d.size + 4) St.empty (getP tC rootId)
+  let o := call doc ccfg (d.size + d.objs.length + 4) St.empty (getP tC rootId)
   match o.1 with
   | .ok _ =>
     let cfg : Conc.Cfg := ⟨ccfg.objCache, ccfg.stmCache, guard⟩
     let slots := o.2.obj.map fun p => (p.1, slotOf p.2)
     let s0 : State Val String := State.init slots o.2.stm (threads.map fun cs => cs.map fun c => c.prog d o.1)
-    let r := replay doc cfg s0 sched []
-    let results := r.2.threads.map fun t => joinWith ";" (t.out.map renderRes)
-    s!"{joinWith "." r.1}|{joinWith "/" results}|{finalOf doc cfg r.2}"
+    let r := replay doc cfg s0 sched [] []
+    let results := r.2.2.threads.map fun t => joinWith ";" (t.out.map renderRes)
+    s!"{joinWith "." r.1}|{joinWith "/" results}|{finalOf doc cfg r.2.2}|{joinWith "." r.2.1}"
   | x => s!"open-failed:{renderRes x}"
 
 def handle (args : List String) : String :=
